@@ -1,49 +1,64 @@
 import BdModel.Defs.Store
+import BdModel.Defs.Names
 import Driver.Util
 namespace Driver.Defs
 open BdModel.Defs BdModel.Hist Driver
 
 def tmplId : Nat := 1000
 
-def dumpLine (w : World) (nn : Nat) (err : Bool) : String :=
-  let r := List.range nn
+/-- one entry per NAME INDEX of the case; `key` maps a name index to the model's name (the resolved file) -/
+def dumpLine (w : World) (nn : Nat) (key : Nat → Nat) (err : Bool) : String :=
+  let r := (List.range nn).map key
   "dump err=" ++ (if err then "1" else "0") ++
   " defs=" ++ ",".intercalate (r.map (fun n => match lookup w n with
       | none => "-" | some t => if t == tmplId then "tmpl" else "t" ++ toString t)) ++
   " hist=" ++ ";".intercalate (r.map (fun n => joinNat ((recent w.hist n 20).map (·.pay))))
 
-/-- lines: `case id <id> nn <n> valid <0/1,…>` then `create n` | `save n t` | `rename a b` | `delete n` | `list` |
-    `run n t r8 req pay` -/
+def chars (s : String) : List Char := (natList s).map Char.ofNat
+
+/-- lines: `case id <id> nn <n> valid <0/1,…>`, then optionally one `sp <code points>` per name index (the SPELLING
+    of the name, in order; answered by `resolved <code points of the file name it denotes>`), then
+    `create n` | `save n t` | `rename a b` | `delete n` | `list` | `run n t r8 req pay` over name indices; the model
+    works on `keyOf spellings n` (names that denote the same file are one DAG). Without `sp` lines a name index is
+    its own key (old replay files). -/
 def run (lines : List String) : List String := Id.run do
   let mut out : List String := []
   let mut w : World := {}
   let mut nn := 0
   let mut valid : Array Nat := #[]
   let mut k := 0
+  let mut sps : List (List Char) := []
   for line in lines do
+    let key := keyOf sps
+    let lit := fun (n : Nat) => match sps[n]? with | none => false | some s => !findsOwnFile s
     match words line with
     | "case" :: rest =>
-      w := {}; nn := natD (kv rest "nn"); valid := (natList (kv rest "valid")).toArray; k := 0
+      w := {}; nn := natD (kv rest "nn"); valid := (natList (kv rest "valid")).toArray; k := 0; sps := []
       out := out ++ ["case " ++ kv rest "id"]
+    | ["sp", cps] =>
+      let s := chars cps
+      sps := sps ++ [s]
+      out := out ++ ["resolved " ++ joinNat ((resolve s).map Char.toNat)]
+    | ["sp"] => sps := sps ++ [[]]; out := out ++ ["resolved " ++ joinNat ((resolve []).map Char.toNat)]
     | ["create", n] =>
-      let (w', r) := create w (natD n) tmplId
-      w := w'; out := out ++ [dumpLine w nn (r == .err)]
+      let (w', r) := create w (key (natD n)) tmplId
+      w := w'; out := out ++ [dumpLine w nn key (r == .err)]
     | ["save", n, t] =>
-      let (w', r) := save (fun t => valid.getD t 0 == 1) w (natD n) (natD t)
-      w := w'; out := out ++ [dumpLine w nn (r == .err)]
+      let (w', r) := save (fun t => valid.getD t 0 == 1) w (key (natD n)) (natD t)
+      w := w'; out := out ++ [dumpLine w nn key (r == .err)]
     | ["rename", a, b] =>
-      let (w', r) := BdModel.Defs.rename w (natD a) (natD b)
-      w := w'; out := out ++ [dumpLine w nn (r == .err)]
+      let (w', r) := renameSp w (key (natD a)) (key (natD b)) (lit (natD a)) (lit (natD b))
+      w := w'; out := out ++ [dumpLine w nn key (r == .err)]
     | ["delete", n] =>
-      let (w', r) := delete w (natD n)
-      w := w'; out := out ++ [dumpLine w nn (r == .err)]
-    | ["list"] => out := out ++ [dumpLine w nn false]
+      let (w', r) := delete w (key (natD n))
+      w := w'; out := out ++ [dumpLine w nn key (r == .err)]
+    | ["list"] => out := out ++ [dumpLine w nn key false]
     | ["run", n, t, r8, req, pay] =>
-      let h := openRun w.hist k (natD n) (natD t) (natD r8)
+      let h := openRun w.hist k (key (natD n)) (natD t) (natD r8)
       let h := write h k ⟨natD req, natD pay⟩
       let h := close h k
       k := k + 1
-      w := { w with hist := h }; out := out ++ [dumpLine w nn false]
+      w := { w with hist := h }; out := out ++ [dumpLine w nn key false]
     | [] => pure ()
     | _ => out := out ++ ["bad-line"]
   return out
